@@ -13,7 +13,7 @@ ASSUMPTIONS = ['reference block ciphers of C02 (self-tested)', 'padding specific
 ANCHORS = [('mode.py', 'ECB.enc'), ('mode.py', 'ECB.dec'), ('mode.py', 'CBC.enc'), ('mode.py', 'CBC.dec'), ('mode.py', 'CTR.enc'), ('mode.py', 'CTR.dec'),
            ('mode.py', 'DefaultCounter.reset'), ('mode.py', 'DefaultCounter.__call__'), ('mode.py', 'CTS_ECB.enc'), ('mode.py', 'CTS_ECB.dec'),
            ('mode.py', 'CTS_CBC.enc'), ('mode.py', 'CTS_CBC.dec'), ('mode.py', 'Mode.xorstr')]
-REQUIRED = ['ecb:enc==spec', 'cbc:enc==spec', 'ctr:enc==spec', 'ecb:dec(enc)==M', 'cbc:dec(enc)==M', 'ctr:dec(enc)==M', 'ctr:length',
+REQUIRED = ['siblings:mode==spec', 'ecb:enc==spec', 'cbc:enc==spec', 'ctr:enc==spec', 'ecb:dec(enc)==M', 'cbc:dec(enc)==M', 'ctr:dec(enc)==M', 'ctr:length',
             'cts-ecb:length', 'cts-ecb:dec(enc)==M', 'cts-cbc:length', 'cts-cbc:dec(enc)==M']
 NSHARDS = 14
 SAN = {'quick': (2, 50), 'thorough': (2, 50)}
@@ -81,6 +81,8 @@ def cases(tier, rng):
                             if tier == 'quick' and (r not in (0, 1, n - 1) and (cc, how) != ('rand', 'iv')):
                                 continue
                             yield {'k': 'ctr', 'c': c, 'cc': cc, 'how': how, 'nb': nb, 'r': r}
+            for j in range(2 if tier == 'quick' else 8):
+                yield {'k': 'siblings', 'c': c, 'j': j, 'nb': 0, 'r': 0}
             for mode in ('cts-ecb', 'cts-cbc'):
                 for nb in range(1, 4):
                     for r in residues(n):
@@ -146,6 +148,30 @@ def run(case, ctx, rng):
             ctx.eq('ctr:dec(enc)==M', call(lambda: new().dec(C)), M, **det)
             ctx.eq('ctr:dec(enc)==M', call(lambda: obj.dec(C)), M, same_object=True, **det)
             ctx.eq('ctr:enc==spec', call(lambda: obj.enc(M)), want, second_call=True, **det)
+    elif k == 'siblings':
+        from vmon.core import siblings
+        import crysp.padding as PD
+        ctx.cls((k, c, case['j'] % 2))
+        shared = mk()                         # one cipher object under several mode objects
+        iv = rng.randbytes(n); iv2 = rng.randbytes(n)
+        h = n // 2
+        def msgs():
+            return rng.randbytes(rng.choice([0, 1, n - 1, n, n + 1, 2 * n + 3]))
+        specs = []
+        M1, M2 = msgs(), msgs()
+        P = lambda M, pad='pkcs7': padspec.spec(pad, 8 * n, bits_msb(M, 8 * len(M)))[0]
+        specs.append(('ECB(shared)', (lambda: MD.ECB(shared)), [('enc(M1)', (lambda o: o.enc(M1)), spec_ecb(E, P(M1), n)), ('enc(M2)', (lambda o: o.enc(M2)), spec_ecb(E, P(M2), n)),
+                                                            ('dec(enc(M1))', (lambda o: o.dec(o.enc(M1))), M1)]))
+        M3 = msgs()
+        specs.append(('CBC(shared,iv)', (lambda: MD.CBC(shared, iv)), [('enc(M3)', (lambda o: o.enc(M3)), spec_cbc(E, iv, P(M3), n)), ('dec(enc(M3))', (lambda o: o.dec(o.enc(M3))), M3)]))
+        M4 = msgs()
+        specs.append(('CBC(own,iv2,X923)', (lambda: MD.CBC(mk(), iv2, PD.X923)), [('enc(M4)', (lambda o: o.enc(M4)), spec_cbc(E, iv2, P(M4, 'x923'), n))]))
+        M5 = msgs(); cnt = rng.getrandbits(8 * h)
+        specs.append(('CTR(shared)', (lambda: MD.CTR(shared, iv[:n - h] + cnt.to_bytes(h, 'big'))), [('enc(M5)', (lambda o: o.enc(M5)), spec_ctr(E, iv[:n - h], cnt, M5, n)),
+                                                                                                    ('dec(enc(M5))', (lambda o: o.dec(o.enc(M5))), M5)]))
+        M6 = msgs(); cnt2 = (1 << (8 * h)) - 1
+        specs.append(('CTR(own,wrap)', (lambda: MD.CTR(mk(), iv2[:n - h] + cnt2.to_bytes(h, 'big'))), [('enc(M6)', (lambda o: o.enc(M6)), spec_ctr(E, iv2[:n - h], cnt2, M6, n))]))
+        siblings(ctx, rng, 'siblings:mode==spec', specs, late=specs.pop(), cipher=c)
     elif k == 'cts-ecb':
         ctx.cls((k, c, case['r'], case['nb']))
         new = lambda: MD.CTS_ECB(mk())
